@@ -26,7 +26,9 @@ NoText == "-"
 
 AllDeviations == {"CloseDoesNotReanalyse", "RenameTaintsCache", "StaleDiagnosticsForDroppedFile",
                   "PrepareRenameSlicesPastEol", "SourceLinePastEof", "CompletionSplitsInsideChar",
-                  "DidChangeFirstEntryWins", "NonFileUriPanics"}
+                  "DidChangeFirstEntryWins", "NonFileUriPanics",
+                  "MalformedParamsPanic", "UnknownRequestNeverAnswered", "NonUtf8PathPanics",
+                  "WorkspaceSymbolRecursesImports", "SemanticTokenPastEndOfLine", "CodeLensOfImportedTests"}
 
 (* what the server would read for every file: the open buffer, else the disk *)
 Eff(disk, buf) == [f \in DOMAIN disk |-> IF buf[f] # NoText THEN buf[f] ELSE disk[f]]
@@ -76,6 +78,23 @@ Close(s, disk, f, ok, main, tree, diag(_), devs) ==
 Renamed(s, devs) == IF "RenameTaintsCache" \in devs THEN [s EXCEPT !.taint = TRUE] ELSE s
 
 Die(s, why) == [s EXCEPT !.alive = FALSE, !.death = why]
+
+(* Messages the protocol does not foresee.  Ideal: a request is answered (with an error), a notification is ignored.  *)
+(* Code today: parameters that do not deserialize (also those of `initialize') panic in lsp_server's extract(); an     *)
+(* unknown request method is only logged - the client waits forever; a file URI whose path is not UTF-8 panics in      *)
+(* to_str().unwrap() as soon as a handler compares it with the files of the analysis (codeLens: always).               *)
+MalformedKills(devs) == "MalformedParamsPanic" \in devs
+UnknownUnanswered(devs) == "UnknownRequestNeverAnswered" \in devs
+NonUtf8KillsMsg(kind, has, devs) ==
+  "NonUtf8PathPanics" \in devs /\ (kind = "codeLens" \/ (has /\ kind \in {"hover", "definition", "references", "highlight", "rename", "completion"}))
+(* workspace/symbol follows imports without remembering where it has been: a project whose imports form a cycle (an     *)
+(* error the analysis reports cleanly) overflows the stack                                                            *)
+CycleKills(kind, has, cyclic, devs) == "WorkspaceSymbolRecursesImports" \in devs /\ kind = "workspaceSymbol" /\ has /\ cyclic
+(* Well-formedness, as coded: a semantic token that spans lines gets the BYTE length of the line as its end column      *)
+(* (text with a non-ASCII character in such a line), and codeLens answers with the tests of imported files at their     *)
+(* coordinates.  These predicates name the texts for which the code today may return ill-formed results.                *)
+TokensMayBeIllFormed(multiLineNonAscii, devs) == "SemanticTokenPastEndOfLine" \in devs /\ multiLineNonAscii
+LensesMayBeIllFormed(importsHaveTests, devs) == "CodeLensOfImportedTests" \in devs /\ importsHaveTests
 
 (* ---------------------------------------------------------------- positions *)
 (* A text is known to the server as lines; lt = sequence of [bytes, u16, chars, nb] per line (terminators removed),  *)
